@@ -850,31 +850,46 @@ def _pool(fn, jobs, procs):
     import multiprocessing as mp
     from concurrent.futures import ProcessPoolExecutor
     ctx = mp.get_context("fork")
-    with ProcessPoolExecutor(max_workers=min(procs, max(1, len(jobs))), mp_context=ctx) as ex:
-        return list(ex.map(fn, jobs))
+    ex = ProcessPoolExecutor(max_workers=min(procs, max(1, len(jobs))), mp_context=ctx)
+    try:
+        return list(ex.map(fn, jobs, timeout=1500))
+    finally:
+        ex.shutdown(wait=False, cancel_futures=True)
 
 
 # ====================================================================================================== streams
-def stream_reflection(R, RF, nvar, fixtures):
-    tasks = []
-    meth_count = {}
-    skipped_tot = {}
+def _worker_discover(fixtures):
+    """(in a child process: building the fixtures starts torch's shared-memory machinery, which must not be forked from)"""
+    RF, t = _imports()
+    os.chdir(tempfile.mkdtemp(prefix="c05-cwd-"))
+    out, errors = [], []
     for fx in fixtures:
         try:
             roots, handles, tmp, meta = RF.FIXTURES[fx]()
         except Exception as e:  # noqa: BLE001
-            R.broken.append(f"reflection fixture {fx} cannot be built: {type(e).__name__}: {e}")
+            errors.append(f"reflection fixture {fx} cannot be built: {type(e).__name__}: {e}")
             continue
         for d in tmp:
             shutil.rmtree(d, ignore_errors=True)
         for hn, h in handles.items():
             meths, skipped = RF.public_methods(type(h))
-            meth_count[type(h).__name__] = len(meths)
-            for k, v in skipped.items():
-                skipped_tot[type(h).__name__ + ":" + k] = v
-            for m in meths:
-                for v in range(nvar):
-                    tasks.append((fx, hn, m, v))
+            out.append((fx, hn, type(h).__name__, meths, skipped))
+    return out, errors
+
+
+def stream_reflection(R, RF, nvar, fixtures):
+    tasks = []
+    meth_count = {}
+    skipped_tot = {}
+    (disc, errors), = _pool(_worker_discover, [fixtures], 1)
+    R.broken.extend(errors)
+    for (fx, hn, tname, meths, skipped) in disc:
+        meth_count[tname] = len(meths)
+        for k, v in skipped.items():
+            skipped_tot[tname + ":" + k] = v
+        for m in meths:
+            for v in range(nvar):
+                tasks.append((fx, hn, m, v))
     R.rng.shuffle(tasks)
     nj = 64
     jobs = [(tasks[i::nj], R.seed) for i in range(nj)]
@@ -1075,13 +1090,34 @@ def main(R):
     os.chdir(scratch)
     try:
         fixtures = RF.QUICK_FIXTURES if R.quick else list(RF.FIXTURES)
-        stream_reflection(R, RF, 6 if R.quick else 20, fixtures)
-        stream_writes(R, RF, t)
+        # the pools fork: nothing that starts threads (shared memory, memmap executors) runs in this process before them
+        import time
+        t0 = time.time()
+        stream_reflection(R, RF, 6 if R.quick else 40, fixtures)
+        t1 = time.time()
         if ok:
-            stream_histories(R, 320 if R.quick else 6000, 28 if R.quick else 45)
+            stream_histories(R, 320 if R.quick else 30000, 28 if R.quick else 50)
+        t2 = time.time()
+        stream_writes(R, RF, t)
+        R.extra["stream_wall_s"] = {"reflection": round(t1 - t0, 1), "histories": round(t2 - t1, 1), "writes": round(time.time() - t2, 1)}
+        if not R.quick:
+            coqchk(R)
     finally:
         os.chdir(old_cwd)
         shutil.rmtree(scratch, ignore_errors=True)
+
+
+def coqchk(R):
+    """thorough tier: the independent checker re-checks the compiled property file and reports the axioms it depends on"""
+    from .core import BuildLock, COQ, sh
+    with BuildLock():
+        rc, out = sh("timeout 1200 coqchk -silent -o -Q . TD TD.Props.C05", cwd=COQ, timeout=1300)
+    import re
+    m = re.search(r"\* Axioms:\s*(.*?)\n\s*\n", out, re.S)
+    axioms = m.group(1).strip() if m else "?"
+    R.extra["coqchk"] = {"rc": rc, "axioms": axioms}
+    if rc != 0 or axioms != "<none>":
+        R.broken.append(f"coqchk: rc={rc}, axioms: {axioms[:300]}")
 
 
 def replay(body):
